@@ -58,7 +58,18 @@ func (e *ExtensionObject) Decode(b []byte) (int, error) {
 	}
 
 	length := buf.ReadUint32()
-	if length == 0 || length == 0xffffffff || buf.Error() != nil {
+	if buf.Error() != nil {
+		return buf.Pos(), buf.Error()
+	}
+	if length == 0 || length == 0xffffffff {
+		// an empty body is the encoding of a structure without fields
+		if e.EncodingMask == ExtensionObjectBinary {
+			if v := eotypes.New(e.TypeID.NodeID); v != nil {
+				if _, err := Decode(nil, v); err == nil {
+					e.Value = v
+				}
+			}
+		}
 		return buf.Pos(), buf.Error()
 	}
 
@@ -96,7 +107,10 @@ func (e *ExtensionObject) Encode() ([]byte, error) {
 	}
 
 	body := NewBuffer(nil)
-	body.WriteStruct(e.Value)
+	// an object without a value (empty body or unknown type) has an empty body
+	if e.Value != nil {
+		body.WriteStruct(e.Value)
+	}
 	if body.Error() != nil {
 		return nil, body.Error()
 	}
